@@ -176,6 +176,14 @@ def pair_load(cg):
 
 # ------------------------------------------------------------------ the C23 oracle
 
+def prove(env, label, cond, detail=None):
+    """env.prove, but a label that already has a witness in this job is not witnessed again
+    (every failing path would otherwise be recorded and replayed)"""
+    if any(f.label == label for f in env.ex.failures):
+        return True
+    return env.prove(label, cond, detail=detail)
+
+
 def _hints_tag(kind):
     if kind in ("none", "empty"):
         return "no-hints"
@@ -193,31 +201,31 @@ def check_valid(env, meth, sit, r, cg, agent_names, must_host, fp, cap, capacity
     if isinstance(r, Raised):
         ok = isinstance(r.exc, (ImpossibleDistributionException, TimeoutError))
         env.cover("declared-impossible" if ok else "other-error")
-        env.prove(L("raises-only-impossible-or-timeout", type(r.exc).__name__), ok,
+        prove(env, L("raises-only-impossible-or-timeout", type(r.exc).__name__), ok,
                   detail=lambda: dict(info(), raised=repr(r), tb=r.tb))
         return None
     env.cover("returned")
-    if not env.prove(L("returns-a-Distribution"), isinstance(r, Distribution), detail=lambda: (info(), r)):
+    if not prove(env, L("returns-a-Distribution"), isinstance(r, Distribution), detail=lambda: (info(), r)):
         return None
     mapping = {a: list(cs) for a, cs in r.mapping().items()}
     comps = [n.name for n in cg.nodes]
     hosted = [c for cs in mapping.values() for c in cs]
     det = lambda: dict(info(), mapping=mapping)  # noqa
-    env.prove(L("every-computation-hosted"), all(c in hosted for c in comps), detail=det)
-    env.prove(L("no-computation-hosted-twice"), len(hosted) == len(set(hosted)), detail=det)
-    env.prove(L("only-computations-of-the-graph-hosted"), all(c in comps for c in hosted), detail=det)
-    env.prove(L("hosts-are-declared-agents"), all(a in agent_names for a, cs in mapping.items() if cs), detail=det)
+    prove(env, L("every-computation-hosted"), all(c in hosted for c in comps), detail=det)
+    prove(env, L("no-computation-hosted-twice"), len(hosted) == len(set(hosted)), detail=det)
+    prove(env, L("only-computations-of-the-graph-hosted"), all(c in comps for c in hosted), detail=det)
+    prove(env, L("hosts-are-declared-agents"), all(a in agent_names for a, cs in mapping.items() if cs), detail=det)
     # the Distribution object answers consistently with its mapping (objects.py consistency)
     consistent = all(r.has_computation(c) and c in mapping.get(r.agent_for(c), []) for c in hosted)
-    env.prove(L("agent_for-agrees-with-mapping"), consistent, detail=det)
+    prove(env, L("agent_for-agrees-with-mapping"), consistent, detail=det)
     for a, cs in must_host.items():
         for c in cs:
-            env.prove(L("must-host-hints-honoured"), c in mapping.get(a, []),
+            prove(env, L("must-host-hints-honoured"), c in mapping.get(a, []),
                       detail=lambda: dict(info(), mapping=mapping, must_host=must_host))
     if capacity_aware:
         for a in agent_names:
             mine = [c for c in mapping.get(a, []) if c in comps]
-            env.prove(L("hosted-footprint-within-capacity"), le(ssum([fp[c] for c in mine]), cap[a]),
+            prove(env, L("hosted-footprint-within-capacity"), le(ssum([fp[c] for c in mine]), cap[a]),
                       detail=lambda: dict(info(), mapping=mapping, agent=a, footprints=fp, capacities=cap))
     return mapping
 
@@ -230,7 +238,7 @@ def h_heuristics(env):
     meth = p["method"]
     mod = env.call(importlib.import_module, "pydcop.distribution." + meth)
     if isinstance(mod, Raised):
-        env.prove("%s.C23.module-imports" % meth, False, detail=lambda: mod.tb)
+        prove(env, "%s.C23.module-imports" % meth, False, detail=lambda: mod.tb)
         return
     dcop, cg = build_graph(env, p["dcop"], p["graph"])
     comps = [n.name for n in cg.nodes]
@@ -494,7 +502,7 @@ def h_ilp(env):
     prop = p.get("prop", "C23")
     mod = env.call(importlib.import_module, "pydcop.distribution." + meth)
     if isinstance(mod, Raised):
-        env.prove("%s.C23.module-imports" % meth, False, detail=lambda: mod.tb)
+        prove(env, "%s.C23.module-imports" % meth, False, detail=lambda: mod.tb)
         return
     mod.GLPK_CMD = _cbc_in_place_of_glpk
     dcop, cg = build_graph(env, p["dcop"], p["graph"])
@@ -550,24 +558,24 @@ def h_ilp(env):
         env.cover("declared-impossible")
         if valid:
             best = min(valid, key=cost_of)
-            env.prove(L("returns-a-distribution-when-a-valid-one-exists", type(r.exc).__name__), False,
+            prove(env, L("returns-a-distribution-when-a-valid-one-exists", type(r.exc).__name__), False,
                       detail=lambda: dict(info(), raised=repr(r), a_valid_distribution=best, n_valid=len(valid)))
         else:
-            env.prove(L("declares-impossible-only-when-no-valid-distribution-exists"), True)
+            prove(env, L("declares-impossible-only-when-no-valid-distribution-exists"), True)
         return
     if not isinstance(r, Distribution):
         return  # C23's business
     env.cover("returned")
     got = {c: r.agent_for(c) for c in comps if r.has_computation(c)}
     member = got in valid
-    env.prove(L("result-satisfies-the-methods-hard-rules"), member,
+    prove(env, L("result-satisfies-the-methods-hard-rules"), member,
               detail=lambda: dict(info(), returned=r.mapping(), n_valid=len(valid)))
     if not valid or len(got) != len(comps):
         return
     c_got = mod.distribution_cost(r, cg, agents, memory, comm)[0]
     best = min(valid, key=cost_of)
     c_best = cost_of(best)
-    env.prove(L("cost-is-minimal-among-valid-distributions"), c_got <= c_best + 1e-9,
+    prove(env, L("cost-is-minimal-among-valid-distributions"), c_got <= c_best + 1e-9,
               detail=lambda: dict(info(), returned=r.mapping(), cost=c_got, cheaper=best, cheaper_cost=c_best))
 
 
@@ -720,7 +728,7 @@ def h_command(env):
     names = AGENT_NAMES[:p["agents"]]
     D = env.call(importlib.import_module, "pydcop.commands.distribute")
     if isinstance(D, Raised):
-        env.prove("command.C23.module-imports", False, detail=lambda: D.tb)
+        prove(env, "command.C23.module-imports", False, detail=lambda: D.tb)
         return
     # computations and footprints as the command will see them (same builders, same algorithm module)
     gmod = importlib.import_module("pydcop.computations_graph." + graph)
@@ -756,6 +764,7 @@ def h_command(env):
             mm = env.call(importlib.import_module, "pydcop.distribution." + m)
             if not isinstance(mm, Raised):
                 mm.GLPK_CMD = _cbc_in_place_of_glpk
+    _pyrandom.seed(key)  # gh_cgdp / heur_comhost / adhoc draw from the global generator: make the replay repeat it
     args = argparse.Namespace(dcop_files=[path], distribution=meth, cost=None, algo=algo,
                               graph=p.get("graph"), output=None)
     out = io.StringIO()
@@ -784,12 +793,12 @@ def h_command(env):
     info = lambda: dict(method=meth, algo=algo, graph=graph, dcop=p["dcop"], yaml=text, stdout=out.getvalue()[-600:])  # noqa
     env.cover("ran")
     if isinstance(r, Raised):
-        env.prove(L("command-ends-with-a-result-not-a-traceback", type(r.exc).__name__), False,
+        prove(env, L("command-ends-with-a-result-not-a-traceback", type(r.exc).__name__), False,
                   detail=lambda: dict(info(), raised=repr(r), tb=r.tb))
         return
     res = env.call(yaml.safe_load, out.getvalue())
     ok = not isinstance(res, Raised) and isinstance(res, dict) and res.get("status") in ("SUCCESS", "FAIL", "TIMEOUT")
-    env.prove(L("prints-a-result-with-a-status"), ok and r == 0, detail=lambda: dict(info(), exit=r))
+    prove(env, L("prints-a-result-with-a-status"), ok and r == 0, detail=lambda: dict(info(), exit=r))
     if not ok or res["status"] != "SUCCESS":
         env.cover("declared-impossible")
         return
@@ -797,15 +806,15 @@ def h_command(env):
     mapping = res.get("distribution") or {}
     hosted = [c for cs in mapping.values() for c in cs]
     det = lambda: dict(info(), mapping=mapping)  # noqa
-    env.prove(L("every-computation-hosted-exactly-once"), sorted(hosted) == sorted(comps), detail=det)
-    env.prove(L("hosts-are-declared-agents"), all(a in names for a, cs in mapping.items() if cs), detail=det)
+    prove(env, L("every-computation-hosted-exactly-once"), sorted(hosted) == sorted(comps), detail=det)
+    prove(env, L("hosts-are-declared-agents"), all(a in names for a, cs in mapping.items() if cs), detail=det)
     for a, cs in must_host.items():
         for c in cs:
-            env.prove(L("must-host-hints-honoured"), c in (mapping.get(a) or []), detail=det)
+            prove(env, L("must-host-hints-honoured"), c in (mapping.get(a) or []), detail=det)
     if meth in CAPACITY_AWARE and algo:
         for a in names:
             tot = sum(inst["fp"][c] for c in (mapping.get(a) or []) if c in inst["fp"])
-            env.prove(L("hosted-footprint-within-capacity"), tot <= inst["cap"][a],
+            prove(env, L("hosted-footprint-within-capacity"), tot <= inst["cap"][a],
                       detail=lambda: dict(info(), mapping=mapping, agent=a, footprints=inst["fp"], capacities=inst["cap"]))
 
 
